@@ -885,10 +885,12 @@ func checkMetricConsistency(
 		)
 	}
 
-	previousLabelName := ""
+	// The labels are not necessarily sorted yet, so duplicates are not
+	// necessarily adjacent.
+	labelNamesSeen := make(map[string]struct{}, len(dtoMetric.GetLabel()))
 	for _, labelPair := range dtoMetric.GetLabel() {
 		labelName := labelPair.GetName()
-		if labelName == previousLabelName {
+		if _, seen := labelNamesSeen[labelName]; seen {
 			return fmt.Errorf(
 				"collected metric %q { %s} has two or more labels with the same name: %s",
 				name, dtoMetric, labelName,
@@ -911,7 +913,7 @@ func checkMetricConsistency(
 				"collected metric %q { %s} has a label named %q whose value is not utf8: %#v",
 				name, dtoMetric, labelName, labelPair.GetValue())
 		}
-		previousLabelName = labelName
+		labelNamesSeen[labelName] = struct{}{}
 	}
 
 	// Is the metric unique (i.e. no other metric with the same name and the same labels)?
